@@ -22,6 +22,7 @@ from beartype.typing import (
 from beartype._data.hint.sign.datahintsignset import (
     HINT_SIGNS_PEP612_CALLABLE_ARGLIST)
 from beartype._util.cache.utilcachecall import property_cached
+from beartype._util.cls.pep.clspep3119 import is_type_subclass_or_nominal
 from beartype._util.hint.pep.proposal.pep484585.pep484585callable import (
     get_hint_pep484585_callable_params,
     get_hint_pep484585_callable_return,
@@ -251,7 +252,7 @@ class CallableTypeHint(TypeHint):
         # originating this hint is a subclass of the class
         # originating that branch.
         if branch._is_args_ignorable:
-            return issubclass(self._origin, branch._origin)
+            return is_type_subclass_or_nominal(self._origin, branch._origin)
         # Else, that branch is subscripted (e.g., "typing.Callable[..., int]").
         #
         # If that branch is *NOT* a callable type hint, this callable type hint
